@@ -148,6 +148,35 @@ def check_c04(ctx):
             if c in C04_CLAUSES:
                 kind = "supported" if x["req"] in V.SUPPORTED_VERSIONS else ("wellformed-unsupported" if _wf(x["req"]) else "malformed")
                 ctx.report("clause=%s request=%s" % (c, kind), "requested %r -> %s" % (x["req"], x), {"kind": "handshake_server", "value": x["req"], "clause": c})
+    # re-initialize on a live session: every ordered pair of requested-version classes, the second
+    # initialize carrying the first session's id (validated against SessionStore: exactly one new
+    # session per initialize, recording the answered version)
+    from harness.props import session as sess
+    from harness.drivers import server_drv
+    classes = [(v, None) for v in V.SUPPORTED_VERSIONS] + [("unsupported", "2031-01-01"), ("unsupported", "garbage"), ("unsupported", 7), ("absent", None)]
+    seqs = []
+    for v1, r1 in classes:
+        for v2, r2 in classes:
+            for carry in (1, 0, 5):
+                ops = []
+                for (v, r), s in (((v1, r1), 0), ((v2, r2), carry)):
+                    op = {"op": "HandleInitialize", "c": "c1" if s == 0 else "c2", "v": v, "s": s}
+                    if r is not None:
+                        op["vreal"] = r
+                    ops.append(op)
+                ops.append({"op": "Get", "s": 1})
+                ops.append({"op": "Get", "s": 2})
+                seqs.append(ops)
+    st = [server_drv.run_session_ops(o) for o in seqs]
+    rs = validate.validate("SessionStoreTrace", st, sess.trace_constants(), work=os.path.join(ctx.work, "val_reinit"), chunk=500)
+    ctx.cov["states"] += rs["states"]
+    ctx.cov["transitions"] += rs["transitions"]
+    ctx.cov["traces_validated_against_impl"] += len(st)
+    ctx.cov["evaluations"] += len(st)
+    for i, k in sorted(rs["rejected"].items()):
+        ev = st[i][k - 1] if 0 < k <= len(st[i]) else {}
+        ctx.report("clause=SessionCarriesAnswer reinitialize op=%s" % ev.get("op"), "event %d: %s" % (k, json.dumps(ev, default=str)[:300]),
+                   {"kind": "session_ops", "ops": seqs[i], "stopped_at": k, "clause": "SessionCarriesAnswer"})
     # pairing
     cases = []
     g = tlc.run_tlc("GenHandshake", "mc/GenHandshake.cfg", work=os.path.join(ctx.work, "gen"), workers=1, timeout=900)
